@@ -144,6 +144,48 @@ def run(payload):
                 fail("numpy_setter_args", ghost=float(g4[0]), want=float(want_ghost))
         except Exception as e:
             fail("args_route_error", error=f"{type(e).__name__}: {str(e)[:300]}")
+    # ---- Robin conditions whose coefficient is linked to an external array: compiled operator vs interpreted setter + operator
+    for dtype in (float, int):
+        g = UnitGrid([4, 3])
+        f = ScalarField(g, rng.uniform(0.5, 2, g.shape))
+        linked = np.array([4, 3, 2], dtype=dtype)
+        cases += 1
+        try:
+            bcs = g.get_boundary_conditions({"x": {"type": "mixed", "value": linked.astype(float), "const": 1.5}, "y": "neumann"})
+            for bc in bcs[0]:
+                bc.link_value(linked)
+            op = g.make_operator("laplace", bcs, backend="numba")
+            raw = g.make_operator_no_bc("laplace", backend="numba")
+            for new in (None, [1, 5, 2]):
+                if new is not None:
+                    linked[:] = new
+                got = op(f.data)
+                f2 = f.copy()
+                bcs.set_ghost_cells(f2._data_full)
+                want = np.empty(g.shape)
+                raw(f2._data_full, want)
+                if not close(got, want):
+                    fail("linked_robin_coefficient_compiled_vs_interpreted", dtype=dtype.__name__, updated=new is not None, max_dev=float(np.max(np.abs(got - want))))
+        except Exception as e:
+            fail("linked_route_error", error=f"{type(e).__name__}: {str(e)[:300]}")
+    # ---- grids with tiny cells whose axes differ in cell size: the scipy route (which needs one common cell size) either
+    #      refuses the grid or agrees with the numba route
+    for bounds in ([[0, 8e-9], [0, 16e-9]], [[0, 8e-7], [0, 12e-7]], [[0, 8.0], [0, 16.0]]):
+        g = CartesianGrid(bounds, [8, 8])
+        f = ScalarField(g, rng.uniform(-1, 1, g.shape))
+        cases += 1
+        ref = f.laplace("neumann", backend="numba").data
+        for how in ("field_method", "make_operator"):
+            try:
+                got = f.laplace("neumann", backend="scipy").data if how == "field_method" else g.make_operator("laplace", "neumann", backend="scipy")(f.data)
+            except RuntimeError:
+                continue  # refusing a non-uniform grid is the documented behaviour
+            except Exception as e:
+                fail("scipy_route_error", grid=repr(g), how=how, error=f"{type(e).__name__}: {str(e)[:200]}")
+                continue
+            if not np.allclose(got, ref, rtol=1e-9, atol=1e-9 * float(np.max(np.abs(ref)))):
+                fail("scipy_route_uses_a_mean_cell_size_on_a_non-uniform_grid", grid=repr(g), how=how, cell_sizes=[float(d) for d in g.discretization],
+                     relative_deviation=float(np.max(np.abs(got - ref)) / np.max(np.abs(ref))))
     return {"ok": True, "cases": cases, "failures": fails}
 
 
